@@ -122,7 +122,8 @@ GAPS = {
     'C09': ['BroydenSolver._iter_initialize (array dtype conversions outside the subset)', 'ScipyKrylov / PETScKrylov delegate to external iterations', 'ArmijoGoldsteinLS / BoundsEnforceLS inner iteration counts', 'exceptions raised by subsystems inside _single_iteration'],
     'C33': ['DefaultVector._initialize_data (views tile [0,end) in order)', 'Vector.set_var / __getitem__ name lookup and indexer path', 'non-contiguous / distributed vectors'],
     'C10': ['composition with NewtonSolver._single_iteration (that the line search is called with u += alpha*du just applied) is covered only for BoundsEnforceLS._solve / ArmijoGoldsteinLS._iter_initialize call protocol',
-            'floating-point: a result can lie one ulp outside a bound (claim is over reals)'],
+            'floating-point: a result can lie one ulp outside a bound (claim is over reals)',
+            '_setup_solvers: array-valued ref / ref0, the loop layout over several variables (start/end bookkeeping is proved per iteration), ArmijoGoldsteinLS._solve backtracking'],
 }
 
 
